@@ -271,3 +271,5 @@ def run(ctx):
     finally:
         # numeric kernels this property's formulas rest on, pinned as canonical expression trees
         check_kernels(ctx, "C02.K", ['is_zero_with_tolerance'])
+        from .kernels import check_leaves
+        check_leaves(ctx, "C02.K", ['balance.is_empty', 'balance.get_side'])
